@@ -9,7 +9,10 @@ ENV_BY_TIER = {"quick": {"NUMBA_DISABLE_JIT": "1"}, "thorough": {}}
 RULE = ("integer-coordinate tree sequences: msprime (Kingman/Beta/Dirac, historical and internal samples) "
         "passed through structural mutators (cut a sub-interval out of one edge, delete an interval, "
         "isolate a sample over an interval, simplify to a sample subset with keep_unary) and msprime-free "
-        "random DAG tables (each node picks a parent per interval); x three masks (samples, none, random). "
+        "random DAG tables (each node picks a parent per interval; tied node times in 30%); ~40% of all inputs "
+        "(detector-level and end-to-end) decorated by gen.exotic (extra node flag bits, ALL nodes renumbered so samples "
+        "are not ids 0..n-1, mutations above roots, mutation-free sites, arbitrary states, populations); x three masks "
+        "(samples, none, random); skip_samples / allow_unary also passed as np.bool_, 0/1 and None. "
         "A case is non-trivial when the table has at least one edge; distinct by content hash")
 ASSUME = ["tskit's edge insertion/removal indexes and edge intervals satisfy valid_tablesb (checked on every "
           "generated input inside Coq, and valid_tablesb is proved to imply the theorems' hypotheses)",
@@ -48,6 +51,20 @@ def impl_all(ts, rmask):
                 out["vg_reject_%d" % allow] = False
             except ValueError as e:
                 out["vg_reject_%d" % allow] = UNARY_MSG_VGAMMA in str(e)
+        # boundary / numpy-typed option values must behave like their plain counterparts
+        out["typed"] = True
+        for val, key in ((np.bool_(False), "noskip"), (0, "noskip"), (np.bool_(True), "skip"), (1, "skip")):
+            if bool(util.contains_unary_nodes(ts, skip_samples=val)) != out[key]:
+                out["typed"] = False
+        for val, key in ((np.bool_(False), "vg_reject_0"), (0, "vg_reject_0"), (None, "vg_reject_0"),
+                         (np.bool_(True), "vg_reject_1"), (1, "vg_reject_1")):
+            try:
+                variational.ExpectationPropagation._check_valid_inputs(ts, np.float64(1.0), val)
+                r = False
+            except ValueError as e:
+                r = UNARY_MSG_VGAMMA in str(e)
+            if r != out[key]:
+                out["typed"] = False
     return out
 
 
@@ -158,7 +175,8 @@ def oracle(ctx, ts, rmask, kind, impl):
                             ("util:mask", impl["rmask"], t_r),
                             ("prior", impl["prior"], t_none),
                             ("vgamma:reject", impl["vg_reject_0"], t_skip),
-                            ("vgamma:allow", impl["vg_reject_1"], False)):
+                            ("vgamma:allow", impl["vg_reject_1"], False),
+                            ("typed-options", impl["typed"], True)):
         if got != want:
             ctx.oracle_fail("%s:%s" % (name, "false-positive" if got else "false-negative"),
                             "%s detector says %s, the trees say %s" % (name, got, want), rp)
@@ -211,6 +229,7 @@ def e2e_ts(rng):
         ts = S.keep_unary_subset(rng, base)
     else:
         ts = base
+    ts, _tag = S.exotic_variant(rng, ts)
     return ts
 
 
